@@ -46,6 +46,13 @@ func (s *Status) UnmarshalText(b []byte) error {
 	if len(parts) != 3 {
 		return fmt.Errorf("webdav: invalid HTTP status %q: expected 3 fields", s)
 	}
+	if !strings.HasPrefix(parts[0], "HTTP/") {
+		return fmt.Errorf("webdav: invalid HTTP status %q: expected an HTTP version", s)
+	}
+	// strconv.Atoi also accepts a sign
+	if len(parts[1]) != 3 || parts[1][0] < '0' || parts[1][0] > '9' {
+		return fmt.Errorf("webdav: invalid HTTP status %q: expected a 3-digit code", s)
+	}
 	code, err := strconv.Atoi(parts[1])
 	if err != nil {
 		return fmt.Errorf("webdav: invalid HTTP status %q: failed to parse code: %v", s, err)
